@@ -21,9 +21,14 @@ import (
 func init() { register("c19-redact", c19Redact) }
 
 // the twins' URNs: same schemes, same country, different paths and display names
-var twinURNs = [2][]string{
-	{"tel:+12065551212", "twitterid:54784326227#alice", "mailto:alice@example.com"},
-	{"tel:+12065559876", "twitterid:11122233344#bob", "mailto:bobby@example.org"},
+var twinURNs = twinURNShapes[0]
+
+// shape 1: URNs whose path or display name holds the URN syntax's own separators (a second colon, a #, a ?)
+var twinURNShapes = [][2][]string{
+	{{"tel:+12065551212", "twitterid:54784326227#alice", "mailto:alice@example.com"},
+		{"tel:+12065559876", "twitterid:11122233344#bob", "mailto:bobby@example.org"}},
+	{{"ext:1001:crm", "webchat:abcdefghijklmnopqrstuvwx:alice@example.com", "telegram:111222333#al:ice", "facebook:ref:alice77", "tel:+12065551212"},
+		{"ext:2002:erp", "webchat:zyxwvutsrqponmlkjihgfedc:bobby@example.org", "telegram:444555666#b:ob", "facebook:ref:bobby88", "tel:+12065559876"}},
 }
 var curTwin = -1     // -1: the default contact of the other checks
 var twinNoID = false // C19: the contact has no id either (a contact that was never saved)
@@ -66,7 +71,7 @@ type C19Line struct {
 var urnTemplates = []string{"@contact", "@contact.urn", "@contact.urns", "@urns", "@urns.tel", "@urns.twitterid", "@urns.mailto", "@(format_urn(urns.tel))", "@(format_urn(contact.urn))",
 	"@(urn_parts(urns.tel).path)", "@(urn_parts(contact.urn).display)", "@(urn_parts(urns.twitterid).display)", "@input.urn", "@(json(contact))", "@(json(urns))", "@(json(input))",
 	"@parent.contact", "@parent.contact.urn", "@parent.urns.tel", "@(json(parent))", "@child.contact.urn", "@(json(child))", "@trigger", "@(json(trigger))", "@(json(run))", "@run.contact.urn",
-	"@(text_slice(urns.tel, 4))", "@(contact.urns[0])", "@(join(contact.urns, \"|\"))", "@(default(urns.whatsapp, urns.tel))", "@(json(results))", "@(count(contact.urns))", "@ticket", "@resume"}
+	"@(text_slice(urns.tel, 4))", "@urns.ext", "@urns.webchat", "@urns.telegram", "@urns.facebook", "@(urn_parts(contact.urn).path)", "@(format_urn(urns.webchat))", "@(contact.urns[0])", "@(join(contact.urns, \"|\"))", "@(default(urns.whatsapp, urns.tel))", "@(json(results))", "@(count(contact.urns))", "@ticket", "@resume"}
 
 func walkContext(env envs.Environment, v types.XValue, path string, depth int, out map[string]string) {
 	if depth > 7 {
@@ -153,7 +158,7 @@ func c19Redact(args []string) error {
 	n := 0
 	var errs []string
 	// saved by every node while the engine runs (one result per template: a template that errors saves nothing)
-	urnResults := []string{"@contact", "@contact.urn", "@urns.tel", "@input.urn", "@(format_urn(urns.twitterid))", "@parent.contact.urn", "@child.contact.urn", "@(json(contact.urns))"}
+	urnResults := []string{"@contact", "@contact.urn", "@urns.tel", "@input.urn", "@(format_urn(urns.twitterid))", "@parent.contact.urn", "@child.contact.urn", "@(json(contact.urns))", "@urns.webchat", "@urns.telegram"}
 	if *in != "" {
 		err = forEachLine(*in, *shard, *nshards, func(i int, data []byte) error {
 			b := &Behaviour{}
@@ -162,6 +167,8 @@ func c19Redact(args []string) error {
 			}
 			// trigger policy / policy carried by every resume ("" = resumes carry no environment): the policy may change
 			// under a session that stays in memory
+			twinURNs = twinURNShapes[(i/3)%len(twinURNShapes)]
+			defer func() { twinURNs = twinURNShapes[0] }()
 			for _, pp := range [][2]string{{"urns", ""}, {"none", ""}, {"none", "urns"}, {"urns", "none"}} {
 				policy := pp[0]
 				for nm := 0; nm < 3; nm++ {
@@ -170,7 +177,7 @@ func c19Redact(args []string) error {
 					if (nm == 1 && i%3 != 0) || (nm == 2 && i%3 != 1) {
 						continue
 					}
-					src := fmt.Sprintf("%s#%d/%s-%s/noname=%v/noid=%v", *in, i, policy, pp[1], noname, twinNoID)
+					src := fmt.Sprintf("%s#%d/%s-%s/noname=%v/noid=%v/urns=%d", *in, i, policy, pp[1], noname, twinNoID, (i/3)%len(twinURNShapes))
 					var obs [2][]map[string]string
 					var ids [2][]string
 					var eff [2][]string
